@@ -678,13 +678,17 @@ func (env *specEnv) call(e *ast.CallExpr) Val {
 				return Val{ts: []Term{x.hget(env.prev, key)}} // prev(calls(..)): value at the start of the loop iteration
 			}
 			return Val{ts: []Term{x.hget(env.heap, key)}}
-		case "verif_calls", "verif_lastarg", "verif_lastres", "verif_lastargn":
+		case "verif_calls", "verif_snap", "verif_lastarg", "verif_lastres", "verif_lastargn":
 			tv := env.info.Types[e.Args[0]]
 			if tv.Value == nil {
 				return env.fail(e, "counter name must be a string constant")
 			}
 			cn := strings.Trim(tv.Value.ExactString(), `"`)
 			key := "$cnt:" + cn
+			if id.Name == "verif_snap" {
+				// snap("name"): 1 iff the fact recorded by snap[COUNTER:name] held right before the last watched call
+				key = "$snap:" + cn
+			}
 			if id.Name == "verif_lastres" {
 				key = "$res:" + cn
 			}
